@@ -78,6 +78,18 @@ def lattice(name):
                 ("ethos-u65-256", "default", "Performance", 16384, "HillClimb", 16),
                 ("ethos-u65-512", "Dedicated_Sram", "Performance", 24000, "HillClimb", 16)]
         return [dict(acc=a, mem=m, opt=o, arena=ar, alloc=al, align=ag) for a, m, o, ar, al, ag in rows]
+    if name == "cR":
+        # arena-size ladder under the real optimiser: the largest stripe height that fits varies (odd and even values occur)
+        return [dict(acc=a, mem="default", opt="Performance", arena=ar, alloc="HillClimb", align=16)
+                for a in ("ethos-u55-128", "ethos-u65-256") for ar in range(20000, 140001, 6000)]
+    if name == "cW":
+        # weights far larger than the fast storage: one minimum depth slice of the encoded weights does not fit the buffer
+        rows = [("ethos-u55-128", "Shared_Sram", "Performance", 32768, "HillClimb", 16),
+                ("ethos-u55-128", "default", "Performance", 16384, "HillClimb", 16),
+                ("ethos-u55-64", "Shared_Sram", "Performance", 98304, "Greedy", 16),
+                ("ethos-u65-512", "Dedicated_Sram", "Performance", 32768, "HillClimb", 16),
+                ("ethos-u65-256", "default", "Size", 32768, "HillClimb", 16)]
+        return [dict(acc=a, mem=m, opt=o, arena=ar, alloc=al, align=ag) for a, m, o, ar, al, ag in rows]
     if name == "c4":
         return lattice("c8")[:4]
     if name == "c2":
